@@ -14,11 +14,11 @@ CHECKS = {
  "C07": ("exploration", "runtime monitoring: reference line/column/quote calculator on every rejected build; include-trace scenarios with known chains",
          "Location part on all rejected cases of the hostile workload; index == file length must carry the line/column of a cursor at the end of the file; every include trace must be a chain (each frame is an INCLUDE that resolves to the file of the frame before it, ending in the root); trace part on generated include chains (also same-named files in nested directories)/diamonds/double inclusions under LF/CRLF/CR where the offending occurrence is unambiguous.", "§3 C07"),
  "C11": ("exploration", "runtime monitoring against an executable reference automaton; exhaustive enumeration of all token sequences of length <=3",
-         "All 378,504 sequences of <=3 tokens over 72 tokens plus seeded longer ones are built; verdict, error class, error line and the scan-phase tree (phase hook) are compared with the reference automaton. Exhaustive within the stated bound.", "§3 C11"),
+         "All 378,504 sequences of <=3 tokens over 72 tokens plus seeded longer ones and the climb-and-close family (A, B, an explicit C, its closing parenthesis, D over all forms: 600 k / 1.6 M sequences) are built; verdict, error class, error line and the scan-phase tree (phase hook) are compared with the reference automaton. Exhaustive within the stated bound.", "§3 C11"),
  "C12": ("exploration", "runtime monitoring: lexeme well-formedness + coverage-completeness monitor on the public scanner; exactness against the renderer's token map",
          "Every lexeme stream of the hostile workload is checked for bounds, order, per-directive grammar, per-type content and for uncovered non-trivia bytes between lexemes; rendered documents are compared with the renderer's ground-truth token map.", "§3 C12"),
  "C13": ("exploration", "runtime monitoring: exhaustive breadth-first probing of the scanner over the 256-byte alphabet against an independent keyword list",
-         "Every live keyword prefix x 256 bytes + EOF and every completed keyword x 256 bytes + EOF in thirteen start contexts; every byte that can start nothing followed by every byte, by 21 multi-byte / line-end / directive tails and (bytes above 0x7F, three contexts) by all pairs of UTF-8 continuation bytes: the error must sit on the first deviating byte whatever follows (2.4M probes), plus all 530 words x 257 followers and ~4000 near misses at a line start inside a Description text in three contexts (493k probes); exhaustive for the stated space.", "§3 C13"),
+         "Every live keyword prefix x 256 bytes + EOF and every completed keyword x 256 bytes + EOF in twenty-two start contexts (file start, after directives, parentheses, comments of several kinds, annotations, bodies with trailing blanks or comments, quoted type parameters); every byte that can start nothing followed by every byte, by 21 multi-byte / line-end / directive tails and (bytes above 0x7F, three contexts) by all pairs of UTF-8 continuation bytes: the error must sit on the first deviating byte whatever follows (2.4M probes), plus all 530 words x 257 followers and ~4000 near misses at a line start inside a Description text in three contexts (493k probes); exhaustive for the stated space.", "§3 C13"),
  "C14": ("fault_enumeration", "runtime monitoring: file-access hook as deciding observer over an enumerated parameter space and enumerated include graphs; strace cross-check",
          "All strings over {a . / \\ ~} up to length 5/7 (bare and quoted) and hostile extras against a sandbox with decoys; all include digraphs on <=3 files and sampled 4-5 file graphs; seeded include trees over six nested directories (same parameter text resolving differently per directory) against a reference resolver; thorough tier cross-checks the hook against strace.", "§3 C14"),
  "C16": ("exploration", "runtime monitoring: history check of accessor call sequences against per-accessor canonical values",
